@@ -375,6 +375,7 @@ def string_tape(rep, F, fn, digits_param, spec_exp, rule='NUMERAL-SHAPE', delta_
             a0 = norm(a)
             if _is(a0, 'bin') and a0[1] == 'Gt' and c == ('eq', 0) and norm(a0[3]) == ('const', 1) and _callp(norm(a0[2]), r'::len$'):
                 facts.append(add(lin2(a0[2]), {1: 1}, -1))        # len <= 1 and digit strings are non-empty: len == 1
+        problems = []
         point_at = None
         zeros = {}
         E = None
@@ -382,10 +383,15 @@ def string_tape(rep, F, fn, digits_param, spec_exp, rule='NUMERAL-SHAPE', delta_
         dfinal = None
         unknown_edit = None
         deltas = []
-        problems = []
         disp = []
         for callee, args in eff:
             c = TB._plain(callee)
+            if re.search(r'Vec::(truncate|drain|pop|split_off|clear|remove|retain)$', c) and args and not deltas:
+                base = norm(args[0])
+                while _is(base, 'mutated'):
+                    base = norm(base[1])
+                if base == TB.T('param', digits_param):
+                    problems.append('digits are removed from the digit vector (%s) before the rounding routine sees them: the discarded tail can no longer influence the rounding' % c.split('::')[-1])
             if re.search(delta_calls, c):
                 deltas.append(TB.T('call', callee, tuple(args)))
             elif re.search(r'Argument.*::new_display$', c) and args:
